@@ -228,6 +228,19 @@ func runMS(t *testing.T, sc *msSc) (res verifsim.Result) {
 						srv.Write(f[:len(f)-1])
 						logEv(srvEvent{Stream: idx, Peer: pi, What: "garbage"})
 					case "silent":
+					case "othertype":
+						// well-formed messages of another type than the request, one every 3 s for over a minute: whatever the client
+						// makes of the first one (it carries the request's id), it must not keep the call waiting behind them
+						for k := 0; k < 25; k++ {
+							if _, err := srv.Write(frameOf(&pb.Message{Type: pb.Message_MessageType((int(req.Type) + 1 + k%3) % 6), Key: req.Key})); err != nil {
+								return
+							}
+							if k == 0 {
+								logEv(srvEvent{Stream: idx, Peer: pi, What: "reply:" + id})
+							}
+							time.Sleep(3 * time.Second)
+						}
+						return
 					}
 				}
 			}()
@@ -632,10 +645,17 @@ var _ = ma.StringCast
 func TestVerif_C10_SenderBytes(t *testing.T) {
 	verifsim.RunCheck(t, verifsim.Check[msSc]{
 		Property: "C10", Part: "sender-bytes",
-		Rule: "rapid: 1-3 clients x 1-3 SendRequest calls against remotes that only misbehave at byte level (garbage, oversize length prefix, partial frame, silence, close, reset; on the first attempt and on the retry); " +
+		Rule: "rapid: 1-3 clients x 1-3 SendRequest calls against remotes that only misbehave at byte level (garbage, oversize length prefix, partial frame, silence, close, reset; on the first attempt and on the retry), or that stream well-formed messages of other types than the request for over a minute; " +
 			"oracle: every call returns an error (never a fabricated reply) within the read timeout per attempt, nothing blocks, plus the C11 stream invariants; non-trivial = both attempts misbehave",
 		Gen: func(t *rapid.T) msSc {
 			var sc msSc
+			if verifsim.Chance(t, "otherTypeStream", 12) {
+				// a remote that streams well-formed messages of other types (a scenario of its own: the unsolicited frames would be
+				// read as replies by later requests on the stream, which says nothing about the sender)
+				d := rapid.SampledFrom([]int{0, 1, 500, 5000}).Draw(t, "otDelay")
+				sc.Clients = [][]cliOp{{{Peer: 0, StartMs: rapid.IntRange(0, 2000).Draw(t, "otStart"), Attempts: []attempt{{Action: "othertype", DelayMs: d}, {Action: "othertype", DelayMs: d}}}}}
+				return sc
+			}
 			nc := rapid.IntRange(1, 3).Draw(t, "nClients")
 			for c := 0; c < nc; c++ {
 				sc.Clients = append(sc.Clients, rapid.SliceOfN(rapid.Custom(func(t *rapid.T) cliOp {
